@@ -521,6 +521,17 @@ class HostileCtx(object):
                                         "attempt followed within idle_hold_time=%s s (state %s, %d calls pending)"
                                         % (cfg["idle_hold_time"], w.state(), len(w.reactor._calls)))
                     self.stats["second_reconnect_after_refusal"] += 1
+        elif st == "CONNECT":
+            # closed and already reconnecting (idle_hold_time 0): the attempt must exist and the old
+            # connection must be closed or closing
+            self.stats["end_already_reconnecting"] += 1
+            if not any(c.state == "connecting" for c in w.live_conns()):
+                raise Violation("C10", "end-state", "reports-CONNECT-without-attempt",
+                                "agent reports CONNECT after the burst but no connection attempt is outstanding")
+            c0 = w.conns[cid]
+            if c0.state == "connected" and not c0.closing():
+                raise Violation("C10", "end-state", "reconnecting-with-old-connection-open",
+                                "agent is reconnecting but connection #%d is still open and not being closed" % cid)
         else:
             raise Violation("C10", "end-state", "ends-in-%s" % st, "unexpected state %s after the burst" % st)
         self.account(w)
